@@ -195,7 +195,10 @@ pub fn generate(seed: u64, thorough: bool, sink: &mut Sink) -> Vec<String> {
     let f: Vec<&str> = c.split('\t').collect();
     let k = seen.entry(f[1].to_string()).or_insert(0); *k += 1;
     let whole = f[1] == "statement-sequences" || f[1] == "last-statement-bare" || f[1] == "literals-and-calls" || f[1] == "strings-names-arity";
-    if whole || (*k - 1) % every == 0 { sink.hit(&format!("plan:{}", f[1])); plans.push(format!("plan\t{}\t{}", f[1], f[2])); }
+    if whole || (*k - 1) % every == 0 {
+      sink.hit(&format!("plan:{}", f[1])); plans.push(format!("plan\t{}\t{}", f[1], f[2]));
+      if f[1] == "statement-sequences" && *k <= 2 { sink.sample(c.clone()); sink.sample(plans[plans.len() - 1].clone()); }
+    }
   }
   out.extend(plans);
   out
